@@ -38,4 +38,17 @@ for pid in sorted(CLAIMED):
         "technique": c.get("technique", "Lean 4 machine-checked proof over an executable rational model + differential correspondence check against the real code"),
     })
 json.dump(man, open(os.path.join(os.path.dirname(os.path.dirname(os.path.abspath(__file__))), "MANIFEST.json"), "w"), indent=1)
+# keep the lake default targets and the library root in step with the claimed set, so that
+# `lake build` (setup_cmd) never depends on unfinished properties
+import re
+root = os.path.dirname(os.path.dirname(os.path.abspath(__file__)))
+lf = os.path.join(root, "lean", "lakefile.toml")
+t = open(lf).read()
+tg = ['"DFV"'] + [f'"drv_{p.lower()}"' for p in sorted(CLAIMED)]
+t = re.sub(r"defaultTargets = \[.*?\]", "defaultTargets = [" + ", ".join(tg) + "]", t)
+open(lf, "w").write(t)
+with open(os.path.join(root, "lean", "DFV.lean"), "w") as f:
+    f.write("import DFV.Model.Basic\nimport DFV.Model.Field\nimport DFV.Json\nimport DFV.JsonField\nimport DFV.DrvLoop\n")
+    for p in sorted(CLAIMED):
+        f.write(f"import DFV.Drv.{p}\nimport DFV.Props.{p}\n")
 print("claimed", sorted(CLAIMED), "n/a", sorted(NOT_APPLICABLE))
